@@ -29,7 +29,7 @@ PureCycle(u, s) ==
    /\ \E r \in {x.ref : x \in RefSites(u)} : RefText(r) = s.ref /\ r.frag # <<>>
          /\ LET d == Designated(u, FileOfId(u, s.owner), r, s.kind) IN "fail" \in DOMAIN d /\ d.fail = "cycle"
 
-(* F-C02-5: a JSON pointer that goes BELOW a header component ("#/components/headers/H/schema", ".../examples/e"): the typed    *)
+(* F-C02-5 (repaired, f4a43a7): a JSON pointer that goes BELOW a header component ("#/components/headers/H/schema", ".../examples/e"): the typed    *)
 (* walk of the fragment (drillIntoField) matches the fields of a struct by their own tags and never looks into an embedded struct; *)
 (* Header is `struct{ Parameter }`, so no field of a header is ever found and a valid document fails to load.                      *)
 PointerBelowHeader(u) == \E x \in RefSites(u) : x.ref.frag # <<>> /\ x.ref.frag[1] = "#compinl" /\ x.ref.frag[2] = "headers"
@@ -38,18 +38,20 @@ Class(line, bad, badsites) ==
    LET u == line.c.u IN
    IF line.load = "error" /\ bad = {"valid_document_loads"} /\ PointerBelowHeader(u) THEN "pointer_below_header_component"
    ELSE IF line.load # "ok" \/ badsites = <<>> THEN "none"
-   (* F-C02-6: what a FAILED load leaves behind in the Loader.  The document under way stays in the visited-documents cache      *)
+   \* F-C02-1 is repaired (9986135, d78e043, 326f29b): UnvisitedSite no longer names a class
+   ELSE IF \A i \in DOMAIN badsites : Conflated(u, badsites[i]) THEN "raw_ref_string_conflation"
+   ELSE IF \A i \in DOMAIN badsites : PureCycle(u, badsites[i]) THEN "pure_ref_cycle_left_unresolved"
+   \* (the two classes of a used Loader come last: a pure reference cycle or a conflation seen through such an entry keeps its own class)
+   (* F-C02-6 (repaired, fcc1715): what a FAILED load left behind in the Loader.  The document under way stays in the visited-documents cache      *)
    (* (loadFromDataWithPathInternal enters it before resolving and never removes it), so loading the same location again hands    *)
    (* out that half-resolved document as a success; and the in-progress reference set keeps the references that were open when    *)
    (* the error struck, so ResolveRefsIn (which resets nothing on a used Loader) leaves those references unresolved.              *)
    ELSE IF line.c.entry \in {"file_abs_retry", "resolvein_retry"} /\ \A i \in DOMAIN badsites : badsites[i].got = "nil" THEN "failed_load_leaves_state"
    (* F-C02-7: the visited-documents cache is never reset, so it survives from one load to the next: a document first met in an    *)
    (* EARLIER load of the same Loader (entry file_abs_prior: every external file was loaded as a root of its own before) is handed   *)
-   (* out as that load left it -- resolved by halves when that load failed (whole_localdangling), or with a reference left nil       *)
+   (* out as that load left it -- (before fcc1715 also: resolved by halves when that load failed, whole_localdangling) with a        *)
+   (* reference left nil                                                                                                             *)
    (* because it was "in progress" in that load's context (crossdoc_local: the root met as an external document of a.json).          *)
    ELSE IF line.c.entry = "file_abs_prior" /\ \A i \in DOMAIN badsites : badsites[i].got = "nil" THEN "cache_serves_earlier_load"
-   \* F-C02-1 is repaired (9986135, d78e043, 326f29b): UnvisitedSite no longer names a class
-   ELSE IF \A i \in DOMAIN badsites : Conflated(u, badsites[i]) THEN "raw_ref_string_conflation"
-   ELSE IF \A i \in DOMAIN badsites : PureCycle(u, badsites[i]) THEN "pure_ref_cycle_left_unresolved"
    ELSE "none"
 =============================================================================
